@@ -15,6 +15,7 @@ Stage 2  (only after a stage-1 `sat`)  A - B is split by its *outer* monomial
          solver does the expansion) and  OR_m (cleared_m != 0)  is asked together
          with  form_k != 0  and the sqrt constraints.
 """
+import os
 import time
 from fractions import Fraction
 
@@ -114,7 +115,25 @@ def run_z3(text: str, timeout_ms: int, seed: int = 0):
     s.from_string(text)
     r = s.check()
     dt = time.time() - t0
+    _dump(text, str(r))
     return str(r), s, dt
+
+
+def _dump(text, status):
+    """VERIF_DUMP_SMT=<dir>: keep the text of every query (one file per process and query,
+    first 40 per process) for tools/crosscheck.py, which re-decides them with other solvers."""
+    d = os.environ.get("VERIF_DUMP_SMT")
+    if not d:
+        return
+    _dump.n = getattr(_dump, "n", 0) + 1
+    if _dump.n > 40:
+        return
+    try:
+        os.makedirs(d, exist_ok=True)
+        with open(os.path.join(d, f"q_{os.getpid()}_{_dump.n}.smt2"), "w") as fh:
+            fh.write(f"; z3-wheel: {status}\n(set-logic QF_NRA)\n{text}\n(check-sat)\n")
+    except OSError:
+        pass
 
 
 def _model_values(s, vars_: Vars, used):
